@@ -41,7 +41,7 @@ Print Assumptions C18_early_error_untouched.
    identical to what was installed before the apply. *)
 Theorem C18_rollback_restores :
   forall T Q F w w1 r1 b gi,
-  apply repaired T Q F w = (w1, r1) -> admit T Q w = true ->
+  apply repaired T Q F w = (w1, r1) -> admits T Q w = true ->
   g_base w1 = Some (true, b, gi) ->
   forall ops, rb_only ops ->
   forall w' r m, In (w', (r, m)) (run repaired w1 ops) -> r = RRbOk ->
@@ -125,7 +125,7 @@ Print Assumptions C18_nonvacuous_auto_rollback.
 Example C18_nonvacuous_crash_rollback :
   exists w1 b gi w' m,
     apply repaired (tar_ex 2 PrevNone) no_opts dies_mid_swap (init_world 1 fs_ex) = (w1, RCrash) /\
-    admit (tar_ex 2 PrevNone) no_opts (init_world 1 fs_ex) = true /\
+    admits (tar_ex 2 PrevNone) no_opts (init_world 1 fs_ex) = true /\
     g_base w1 = Some (true, b, gi) /\
     ofile_eqb (fs w1 0%N) (Some (Reg 20 493)) = true /\ ofile_eqb (fs w1 1%N) (Some (Reg 11 420)) = true /\
     rb_only [OpRollback no_faults] /\
